@@ -5,6 +5,7 @@
 -/
 import Coraza.Properties.C14
 import Coraza.Proofs.Tf3
+import Coraza.Model.Generated.Tables
 open Coraza Coraza.Tf
 
 /-! ## change reports -/
@@ -136,3 +137,10 @@ theorem C14_removeWhitespace_idem (x : Bytes) :
 theorem C14_compressWhitespace_idem (x : Bytes) :
     (compressWhitespace (compressWhitespace x).out).out = (compressWhitespace x).out := by
   simpa [compressWhitespace] using (compressWsAux_fix x).2
+
+/-! ## the decoding table of the model is the table of the source (translated on every run) -/
+
+theorem C14_base64DecMap_is_source :
+    Generated.base64DecMap.length = 128 ∧
+    (List.range 128).all (fun c => b64DecMap (UInt8.ofNat c) == Generated.base64DecMap.getD c 0) = true := by
+  decide +kernel
